@@ -37,8 +37,8 @@ ASSUMPTIONS = ["validator activations are the points at which validation can fai
                "an injected failure raises a ValueError subclass at the activation point",
                "the audit hook sees every open() made through Python; the strace sample covers what it cannot"]
 REQUIRED_REACH = ["common.MetadataBase.dump", "treeinfo.TreeInfo.dump", "common.open_file_obj"]
-REQUIRED_MONITORS = ["destination-bytes-unchanged", "no-write-open-in-failing-dump", "no-stray-files", "real-invalid-value"]
-CLASS_FLOORS_EXTRA = {"previous-file-over-1MiB": 10, "dest-name-tmp-suffix": 50}
+REQUIRED_MONITORS = ["odd-value", "destination-bytes-unchanged", "no-write-open-in-failing-dump", "no-stray-files", "real-invalid-value"]
+CLASS_FLOORS_EXTRA = {"odd-value-dump-failed": 50, "previous-file-over-1MiB": 10, "dest-name-tmp-suffix": 50}
 CLASS_FLOORS = {"preexisting": 50, "absent": 50, "fault-in-nested-writer": 50, "fault-in-top-level-validate": 5, "treeinfo-main-variant": 5,
                 "real-invalid-value": 30}
 for _f in formats.FORMATS:
@@ -69,7 +69,8 @@ def listing(d):
     return sorted(os.listdir(d))
 
 
-def failing_dump(ctx, obj, fmt, case, workdir, good_bytes, preexisting, main_variant, arm, disarm, monitor_prefix=""):
+def failing_dump(ctx, obj, fmt, case, workdir, good_bytes, preexisting, main_variant, arm, disarm, monitor_prefix="",
+                 violation_key="dump-opens-destination-before-serialising"):
     """Runs one dump that is expected to fail; checks the destination afterwards.
     arm()/disarm() switch the fault on/off.  Returns 'failed' | 'succeeded'."""
     # the destination's NAME and the SIZE of what it holds are the caller's business
@@ -141,7 +142,7 @@ def failing_dump(ctx, obj, fmt, case, workdir, good_bytes, preexisting, main_var
     if probs:
         ctx.violation("destination-bytes-unchanged", "after a dump that raised, the destination is byte for byte what it was (and absent if it was absent)",
                       case, observed=probs + ["%s: %s" % (type(exc).__name__, str(exc)[:120])], expected="untouched",
-                      key="dump-opens-destination-before-serialising")
+                      key=violation_key)
     stray = [n for n in listing(workdir) if n not in before_list and n != dest_name]
     ctx.monitor("no-stray-files", fired=bool(stray))
     if stray:
@@ -163,7 +164,7 @@ def failing_dump(ctx, obj, fmt, case, workdir, good_bytes, preexisting, main_var
         if w:
             ctx.violation("no-write-open-in-failing-dump", "the destination is not opened for writing inside a dump call that ends in an exception",
                           case, observed=[list(x) for x in w[:3]], expected="no write-open event",
-                          key="dump-opens-destination-before-serialising")
+                          key=violation_key)
     return outcome
 
 
@@ -205,6 +206,113 @@ def check_object(ctx, pms, fmt, D, order_seed, workdir, rng, main_variant=None, 
             fired_points.add(label)
         ctx.case_done({"f": fmt, "D": D, "i": i, "p": preexisting, "m": main_variant}, nontrivial=(nested or preexisting) and out == "failed")
     return n, fired_points, obj, good_bytes
+
+
+ODD_VALUES = [b"bytes", float("inf"), float("nan"), 5, 1.5, None, ["x"], {"k": b"v"}, set([1]), "two\nlines", "form\x0cfeed", ("t",), object]
+
+
+def odd_mutations(fmt, obj):
+    """(label, apply(value)) for places NO validator looks at (deep table values, keys, caller-owned containers) and for
+    values validators accept but a writer may choke on: whether such a dump fails is the library's business - IF it fails,
+    the destination must be what it was."""
+    out = []
+
+    def setter(container, key):
+        def apply(v):
+            container[key] = v
+        return apply
+
+    def attr(o, name):
+        def apply(v):
+            setattr(o, name, v)
+        return apply
+    if fmt == "composeinfo":
+        for v in corrupt._ci_variants(obj):
+            for cat in ("os_tree", "packages", "repository", "isos"):
+                table = getattr(v.paths, cat, None)
+                if isinstance(table, dict):
+                    for a in sorted(table):
+                        out.append(("variant.paths.%s[arch] value" % cat, setter(table, a)))
+                    out.append(("variant.paths.%s odd key" % cat, lambda val, t=table: t.__setitem__(5, "x")))
+            out.append(("variant.name", attr(v, "name")))
+        out.append(("compose.respin", attr(obj.compose, "respin")))
+        out.append(("release.name", attr(obj.release, "name")))
+    elif fmt == "images":
+        for im in corrupt._images(obj):
+            if isinstance(im.checksums, dict):
+                for k in sorted(im.checksums):
+                    out.append(("image.checksums value", setter(im.checksums, k)))
+            out.append(("image.additional_variants element", lambda val, im=im: (setattr(im, "unified", True),
+                                                                                setattr(im, "additional_variants", [val]))))
+            out.append(("image.volume_id", attr(im, "volume_id")))
+            out.append(("image.size", attr(im, "size")))
+    elif fmt in ("rpms", "modules", "extra_files"):
+        root = {"rpms": "rpms", "modules": "modules", "extra_files": "extra_files"}[fmt]
+
+        def walk(node, depth):
+            if isinstance(node, dict):
+                for k in sorted(node, key=str):
+                    out.append(("%s deep value (depth %d)" % (fmt, depth), setter(node, k)))
+                    walk(node[k], depth + 1)
+                out.append(("%s odd key (depth %d)" % (fmt, depth), lambda val, n=node: n.__setitem__(5, {"x": 1})))
+            elif isinstance(node, list):
+                for i in range(len(node)):
+                    out.append(("%s list element" % fmt, setter(node, i)))
+                    walk(node[i], depth + 1)
+        walk(getattr(obj, root), 1)
+        out.append(("compose.respin", attr(obj.compose, "respin")))
+    elif fmt == "treeinfo":
+        out.append(("tree.build_timestamp", attr(obj.tree, "build_timestamp")))
+        out.append(("release.name", attr(obj.release, "name")))
+        for p in sorted(obj.images.images):
+            for k in sorted(obj.images.images[p]):
+                out.append(("images[platform][name]", setter(obj.images.images[p], k)))
+        for p in sorted(obj.checksums.checksums):
+            out.append(("checksums[path]", setter(obj.checksums.checksums, p)))
+            out.append(("checksums[path] value", lambda val, p=p: obj.checksums.checksums.__setitem__(p, ["sha256", val])))
+        for v in corrupt._ti_variants(obj):
+            out.append(("variant.name", attr(v, "name")))
+            out.append(("variant.paths.packages", attr(v.paths, "packages")))
+        out.append(("stage2.mainimage", attr(obj.stage2, "mainimage")))
+        out.append(("media.discnum", attr(obj.media, "discnum")))
+    elif fmt == "discinfo":
+        out += [("timestamp", attr(obj, "timestamp")), ("description", attr(obj, "description")), ("arch", attr(obj, "arch")),
+                ("disc_numbers element", lambda val: setattr(obj, "disc_numbers", [1, val])),
+                ("disc_numbers", attr(obj, "disc_numbers"))]
+    return out
+
+
+def check_odd_value(ctx, pms, fmt, rng, workdir):
+    force = {"composeinfo": "paths-full", "treeinfo": rng.choice(["images", "checksums", "media", "stage2"]), "images": None}.get(fmt)
+    D = formats.gen(fmt, rng, force, hostile=False)
+    order_seed = rng.randrange(1 << 30)
+    try:
+        obj = formats.build(pms, fmt, D, order_seed)
+        for name in os.listdir(workdir):
+            os.unlink(os.path.join(workdir, name))
+        obj.dump(os.path.join(workdir, "dest"))
+        with open(os.path.join(workdir, "dest"), "rb") as f:
+            good_bytes = f.read()
+    except Exception:
+        return
+    muts = odd_mutations(fmt, obj)
+    if not muts:
+        return
+    mi = rng.randrange(len(muts))
+    vi = rng.randrange(len(ODD_VALUES))
+    label, apply = muts[mi]
+    try:
+        apply(ODD_VALUES[vi])
+    except Exception:
+        return
+    preexisting = rng.random() < 0.75
+    case = {"fmt": fmt, "D": D, "order_seed": order_seed, "preexisting": preexisting,
+            "fault": {"kind": "odd-value", "place": label, "mutation_index": mi, "value_index": vi, "value": repr(ODD_VALUES[vi])[:40]}}
+    out = failing_dump(ctx, obj, fmt, case, workdir, good_bytes, preexisting, None, arm=lambda: None, disarm=lambda: None,
+                       violation_key="value-no-validator-looks-at-fails-inside-the-encoder")
+    ctx.monitor("odd-value", fired=False)
+    ctx.count("odd-value-dump-failed" if out == "failed" else "odd-value-dump-succeeded")
+    ctx.case_done({"f": fmt, "D": D, "odd": [mi, vi], "p": preexisting}, nontrivial=out == "failed")
 
 
 def check_real_value(ctx, pms, fmt, rng, workdir):
@@ -393,6 +501,11 @@ def run_shard(ctx):
             check_real_value(ctx, pms, fmt, rng, workdir)
         except Exception as e:
             ctx.note_add("real_value_case_skipped")
+        try:
+            check_odd_value(ctx, pms, fmt, rng, workdir)
+            check_odd_value(ctx, pms, formats.FORMATS[(j + 3) % len(formats.FORMATS)], rng, workdir)
+        except Exception as e:
+            ctx.note_add("odd_value_case_skipped")
     if ctx.shard == 0:
         strace_sample(ctx, pms, strace_cases, workdir)
 
@@ -413,7 +526,12 @@ def replay(ctx, case):
         good_bytes = f.read()
     fault = case["fault"]
     tr = ctx.vtrace
-    if fault["kind"] == "inject":
+    if fault["kind"] == "odd-value":
+        muts = odd_mutations(fmt, obj)
+        muts[fault["mutation_index"]][1](ODD_VALUES[fault["value_index"]])
+        failing_dump(ctx, obj, fmt, case, workdir, good_bytes, case.get("preexisting", True), None, arm=lambda: None, disarm=lambda: None,
+                     violation_key="value-no-validator-looks-at-fails-inside-the-encoder")
+    elif fault["kind"] == "inject":
         failing_dump(ctx, obj, fmt, case, workdir, good_bytes, case.get("preexisting", True), case.get("main_variant"),
                      arm=lambda: tr.begin("inject", target=fault["index"]), disarm=tr.end)
     else:
